@@ -181,6 +181,24 @@ class PristineServer(RefServer):
         for line in rf:
             req = json.loads(line)
             gpid = os.fork()
+            if gpid == 0 and req.get("what") == "fit":
+                # a fresh object of the profile fitted on freshly built data, by a process without this run's history
+                try:
+                    try:
+                        fresh = worker._fresh_data(req["recipe"])
+                        with worker._quiet():
+                            model = P.make_model(worker.em, req["fam"], req["profile"])
+                            kw = {} if req["fam"] == "caltrack" else {"ignore_disqualification": req["ignore"]}
+                            model.fit(fresh, **kw)
+                            txt = model.to_json()
+                        ans = {"cls": "returned", "parts": {"doc": D.text(txt), "text": txt,
+                                                            "dq": _names(_wlist(getattr(model, "disqualification", None))),
+                                                            "tz": str(getattr(model, "baseline_timezone", None))}}
+                    except Exception as e:  # noqa: BLE001
+                        ans = {"cls": _cls(e), "parts": None}
+                    os.write(wfd, (json.dumps(ans) + "\n").encode())
+                finally:
+                    os._exit(0)
             if gpid == 0:
                 try:
                     try:
@@ -200,6 +218,31 @@ class PristineServer(RefServer):
                 os.waitpid(gpid, 0)
             except ChildProcessError:
                 pass
+
+    def fit(self, fam, profile, recipe, ignore, timeout=900.0):
+        return self._ask({"what": "fit", "fam": fam, "profile": profile, "recipe": recipe, "ignore": ignore}, timeout)
+
+    def _ask(self, req, timeout):
+        import os
+        import select
+
+        if self.dead:
+            return ("reference-unavailable", None)
+        try:
+            os.write(self.w, (json.dumps(req) + "\n").encode())
+            r, _, _ = select.select([self.r], [], [], timeout)
+            if not r:
+                self.close()
+                return ("reference-unavailable", None)
+            line = self.rfile.readline()
+            if not line:
+                self.close()
+                return ("reference-unavailable", None)
+            ans = json.loads(line)
+            return (ans["cls"], ans["parts"])
+        except OSError:
+            self.close()
+            return ("reference-unavailable", None)
 
     def restore_predict(self, fam, doc, recipe, ignore, agg, timeout=600.0):
         import os
@@ -798,6 +841,20 @@ class Worker:
         slot.gate0 = {"dq": _names(out["gate"]["dq"]), "tz": out["gate"]["tz"]}
         pf, nums = self._poor_fit(fam, model)
         out["poor_fit"], out["fit_numbers"] = pf, nums
+        if (facts.get("reused") or a.get("vs_fresh")) and fam != "caltrack" and self.pristine is not None and mode == "json":
+            # the same key by a fresh object in a process that has seen nothing of this run: same document, same gate state
+            pcls, pp = self.pristine.fit(fam, profile, ds.recipe, ignore)
+            if pcls != "reference-unavailable":
+                self.probe("fit_compared_with_pristine_process")
+                out["fresh_class"] = pcls
+                if pcls == "returned":
+                    out["fresh_doc_same"] = pp["doc"] == dg
+                    if not out["fresh_doc_same"]:
+                        try:
+                            out["fresh_doc_paths"] = D.top_diff(json.loads(pp["text"]), json.loads(txt))
+                        except Exception:  # noqa: BLE001
+                            out["fresh_doc_paths"] = []
+                    out["fresh_gate"] = {"dq": pp["dq"], "tz": pp["tz"]}
         if pf:
             self.probe("dq_by_poor_fit")
         try:
